@@ -96,3 +96,11 @@ package cred
 //@   callsite saveToFile: $savedAt := recvcount(s.saveQueue)
 //@   callsite saveToFile: $ioFailed := false
 //@   ensures $savedAt == recvcount(s.saveQueue)
+// ... and it returns only after shutdown has begun (the context's Done channel was seen ready) and, after it
+// first saw that, it looked into the queue once more without blocking: a job queued before shutdown began is
+// still taken (and, by the clause above, written). firstrecv / lastpoll are ghost event numbers of this
+// goroutine's channel operations.
+//@   requires firstrecv(context.ctxDoneId(ctx)) == 0 && 0 <= chanevents() && lastpoll(s.saveQueue) <= chanevents()
+//@   loop 0 invariant firstrecv(context.ctxDoneId(ctx)) <= chanevents() && lastpoll(s.saveQueue) <= chanevents()
+//@   loop 0 invariant firstrecv(context.ctxDoneId(ctx)) != 0 ==> lastpoll(s.saveQueue) > firstrecv(context.ctxDoneId(ctx))
+//@   ensures firstrecv(context.ctxDoneId(ctx)) != 0 && lastpoll(s.saveQueue) > firstrecv(context.ctxDoneId(ctx))
